@@ -58,10 +58,12 @@ def points_from_spec(spec):
         for j in range(k):
             direction = rng.normal(size=d)
             direction /= np.linalg.norm(direction)
+            sc = scale * (spec['small'] if (j == k - 1 and 'small' in spec)
+                          else 1.0)
             parts.append(_blob(rng, sizes[j], d,
                                base + sep * j * direction / max(1, k - 1) *
                                (1 if j % 2 == 0 else -1),
-                               scale, ratio))
+                               sc, ratio))
         x = np.vstack(parts)
     elif fam == 'arc':
         t = rng.uniform(0, spec.get('arc', 2.5), n)
@@ -110,7 +112,7 @@ def points_from_spec(spec):
 
 @st.composite
 def point_specs(draw, d_min=1, d_max=8, n_min=None, n_max=400,
-                families=None, allow_outside=False):
+                families=None, allow_outside=False, extreme_ratio=False):
     d = draw(st.integers(d_min, d_max))
     lo = max(d + 2, n_min or 0)
     n = draw(st.integers(lo, max(lo, n_max)))
@@ -118,7 +120,11 @@ def point_specs(draw, d_min=1, d_max=8, n_min=None, n_max=400,
                         'wrapped', 'uniform']
     fam = draw(st.sampled_from(fams))
     spec = dict(d=d, n=n, family=fam, seed=draw(st.integers(0, 2 ** 32 - 1)),
-                ratio=draw(st.sampled_from([1.0, 3.0, 30.0, 1000.0])),
+                # (3e7: a rotated sheet at the edge of what the Cholesky based
+                # transform still handles exactly; 1e8 raises LinAlgError)
+                ratio=draw(st.sampled_from(
+                    [1.0, 3.0, 30.0, 1000.0] + ([1000.0, 3e7]
+                                                if extreme_ratio else []))),
                 scale=draw(st.sampled_from([0.003, 0.02, 0.08, 0.2])))
     if fam == 'clusters':
         k = draw(st.integers(2, 4))
